@@ -426,6 +426,153 @@ def parseH : Handler := fun args impl =>
     | none => unmodelled
   | _ => unmodelled
 
+/-! ### C04: what an independent, specification-written encoder put on the wire must be what Parse exposes -/
+
+/-- field of a struct value by Go field name, also through embedded structs (promoted fields) -/
+def fieldDeep : Nat → V → String → Option V
+  | 0, _, _ => none
+  | fuel + 1, v, name =>
+    match v with
+    | .obj k fs =>
+      match Gen.structFields.lookup k with
+      | none => none
+      | some ns =>
+        match ns.findIdx? (· = name) with
+        | some i => fs[i]?
+        | none =>
+          -- an embedded struct is a field whose name equals its type's name
+          let embedded := (ns.zip fs).filter (fun (n, f) => match f with
+            | .obj k' _ => n = k' ∨ ("p." ++ n) = k' ∨ ("u." ++ n) = k'
+            | _ => false)
+          embedded.findSome? (fun (_, f) => fieldDeep fuel f name)
+    | _ => none
+
+def resolvePath (v : V) (path : List String) : Option V :=
+  path.foldlM (fun (cur : V) (seg : String) =>
+    match seg.toNat? with
+    | some i => (match cur with
+      | .list xs => xs[i]?
+      | _ => none)
+    | none => fieldDeep 4 cur seg) v
+
+/-- bytes a value stands for when the encoder wrote raw bytes there -/
+def rawOf : V → Option Bytes
+  | .bytes b => some b
+  | .obj "u.Buffer" [.bytes b] => some b
+  | .nil => some []
+  | _ => none
+
+def checkExpect (dump : V) (item : String) : Option String :=
+  match item.splitOn "=" with
+  | [pathS, want] =>
+    let path := pathS.splitOn "."
+    match resolvePath dump path with
+    | none => some s!"{pathS}: the parsed {dump.kind} has no such field / element (wanted {want.take 60})"
+    | some got =>
+      if want.startsWith "#" then
+        match got, (want.drop 1).toString.toNat? with
+        | .list xs, some n => if xs.length = n then none else some s!"{pathS}: {xs.length} elements parsed, {n} on the wire"
+        | .nil, some 0 => none
+        | _, _ => some s!"{pathS}: not a list"
+      else if want.startsWith "kind:" then
+        let k := (want.drop 5).toString
+        if got.kind = k then none else some s!"{pathS}: parsed as {got.kind}, the wire holds a {k}"
+      else if want.startsWith "oxm:" then
+        match (want.drop 4).toString.splitOn ":" with
+        | [c, f, m, vh, mh] =>
+          (match got, c.toNat?, f.toNat?, m.toNat?, ofHex vh, ofHex mh with
+          | .obj "MatchField" [.num c', .num f', .num m', _, _, val, mask], some c, some f, some m, some vb, some mb =>
+            if c' ≠ c ∨ f' ≠ f ∨ m' ≠ m then some s!"{pathS}: class/field/mask {c'}/{f'}/{m'}, wire {c}/{f}/{m}"
+            else
+              -- net.IP holds an IPv4 address in 4 or in 16 (v4-mapped) bytes
+              let norm (w : Nat) (o : Option Bytes) : Option Bytes :=
+                o.map fun b => if w = 4 ∧ b.length = 16 ∧ b.take 12 = zeros 10 ++ [0xff, 0xff] then b.drop 12 else b
+              let gv := norm vb.length (Oracles.payloadBytes vb.length val)
+              let gm := if m = 1 then norm mb.length (Oracles.payloadBytes mb.length mask) else some []
+              if gv = some vb ∧ gm = some mb then none
+              else some s!"{pathS}: value/mask parsed as {val.toText}/{mask.toText}, wire {vh}/{mh}"
+          | _, _, _, _, _, _ => some s!"{pathS}: not a match field: {got.toText.take 80}")
+        | _ => some s!"bad expectation {item}"
+      else if want.startsWith "ins:" then
+        match ofHex (want.drop 4).toString with
+        | some bs =>
+          (match Spec.walkInstrs (bs.length + 8) bs with
+          | .error e => some s!"generator bug: instruction bytes not walkable: {e}"
+          | .ok ts =>
+            let es := (ts.map Spec.Tree.flatBytes).flatten
+            let vs := Oracles.elemsOf got
+            if es.map (·.1) ≠ vs.map (·.1) then
+              some s!"{pathS}: wire holds {es.map (·.1)}, parsed {vs.map (·.1)}"
+            else
+              match ((es.zip vs).map fun ((c, b), (_, v)) => Oracles.checkElem c v b).flatten with
+              | [] => none
+              | d :: _ => some s!"{pathS}: {d}")
+        | none => some s!"bad expectation {item}"
+      else if want.startsWith "x" then
+        match ofHex (want.drop 1).toString, rawOf got with
+        | some wb, some gb => if wb = gb then none else some s!"{pathS} = x{toHex gb}, the wire holds x{toHex wb}"
+        | _, _ => some s!"{pathS}: parsed {got.toText.take 60}, the wire holds {want.take 60}"
+      else
+        match want.toNat?, got with
+        | some n, .num g => if n = g then none else some s!"{pathS} = {g}, the wire holds {n}"
+        | _, _ => some s!"{pathS}: parsed {got.toText.take 60}, the wire holds {want.take 60}"
+  | _ => some s!"bad expectation {item}"
+
+/-- `sw <hex backing> <len> <Kind;path=value;…>`: Parse of bytes written by the independent switch-side encoder -/
+def swH : Handler := fun args impl =>
+  match args with
+  | [hx, ln, exp] =>
+    match mkSlice hx ln with
+    | some s =>
+      let m := showR V.toText (parse (s.len + 1) s)
+      let fails : List String :=
+        match exp.splitOn ";" with
+        | kind :: items =>
+          (match V.ofText impl with
+          | none => [s!"conformant {kind} frame ({(items.head?.getD "").take 24}) of {ln} bytes: Parse returned {impl.take 40}"]
+          | some d =>
+            (if kind ≠ "*" ∧ d.kind ≠ kind then [s!"a {kind} frame was parsed as {d.kind}"] else []) ++
+            (items.filter (· ≠ "")).filterMap (checkExpect d))
+        | [] => []
+      { model := m, more := (fails.take 3).map (fun f => ("C04", f)) }
+    | none => unmodelled
+  | _ => unmodelled
+
+/-- `pk <kind> <hex backing> <len> <Kind;path=value;…>` (C09): a well-formed packet header written by the independent
+    encoder is decoded by the kind's own decoder; every field must hold what was written (sub-byte fields in their
+    lanes), the reported size must equal the bytes consumed and the re-encoding must reproduce the input -/
+def pkH : Handler := fun args impl =>
+  match args with
+  | [kn, hx, ln, exp] =>
+    match kinds.lookup kn, mkSlice hx ln with
+    | some k, some s =>
+      let m := match k.unmarshal k.zero s with
+        | .ok v =>
+          (match kinds.lookup v.kind with
+           | none => "unmodelled"
+           | some kv =>
+             let (l, v1) := lenStr kv v
+             match kv.marshalM v1 with
+             | .ok (b, v2) => s!"{v2.toText} {l} {hexOrDash b}"
+             | .err => s!"{v1.toText} {l} err"
+             | .panic => "panic"
+             | .spin => "spin")
+        | r => showR (fun _ => "") r
+      let input := toHex (s.buf.take s.len)
+      let fails : List String :=
+        match impl.splitOn " " with
+        | [d, l, h] =>
+          (match V.ofText d with
+           | none => [s!"{kn}: unreadable result {impl.take 60}"]
+           | some dv =>
+             ((exp.splitOn ";").drop 1 |>.filter (· ≠ "") |>.filterMap (checkExpect dv)) ++
+             (if l = ln then [] else [s!"{kn}: reported size {l}, {ln} bytes were consumed"]) ++
+             (if h = input ∨ (h = "-" ∧ input = "") then [] else [s!"{kn}: re-encoding {h.take 100} differs from the input {input.take 100}"]))
+        | _ => [s!"well-formed {kn} header of {ln} bytes: decoder returned {impl.take 60}"]
+      { model := m, more := (fails.take 3).map (fun f => ("C09", f)) }
+    | _, _ => unmodelled
+  | _ => unmodelled
+
 /-- `dec` with the totality oracle for the packet-header decoders (C08) -/
 def decH : Handler := fun args impl =>
   let v := dec args impl
@@ -454,7 +601,7 @@ def handlers : List (String × Handler) :=
       match a with
       | kn :: _ :: ln :: _ => if kn.startsWith "p." ∧ (i = "panic" ∨ i = "spin") then { v with more := [("C08", s!"{kn} decoder on {ln} bytes: {i}")] } else v
       | _ => v),
-   ("fn", fn), ("prog", prog), ("api", api), ("apix", apix), ("parse", parseH), ("embed", embedH),
+   ("fn", fn), ("prog", prog), ("api", api), ("apix", apix), ("parse", parseH), ("sw", swH), ("pk", pkH), ("embed", embedH),
    ("rep", rep), ("rtrip", rtWith false), ("rtparse", rtWith true), ("scribble", scribble),
    ("repx", fun a i => { (rep a i) with more := [] }), ("rtx", fun a i => { (rtWith false a i) with more := [] })]
 
